@@ -47,6 +47,7 @@ type FuncSpec struct {
 	AtCall    map[string]*CallSpec // key "callee" or "callee#n"
 	Ghosts    []*Clause            // executed at the call (extern) or at exit (func)
 	Wraps     map[string]bool      // operator texts where wrap-around is intended
+	WrapsIf   map[string]ast.Expr  // operator text -> condition under which the result is in range (assumption)
 	NoPanic   []string             // tags override for run-time checks
 	File      string
 	Line      int
@@ -353,17 +354,17 @@ func ParseContracts(file string, c *Contracts) error {
 			c.Scan = append(c.Scan, "pure "+rest)
 			cur = nil
 		case "extern":
-			cur = &FuncSpec{Key: rest, Extern: true, Loops: map[int]*LoopSpec{}, AtCall: map[string]*CallSpec{}, Wraps: map[string]bool{}, File: file, Line: line}
+			cur = &FuncSpec{Key: rest, Extern: true, Loops: map[int]*LoopSpec{}, AtCall: map[string]*CallSpec{}, Wraps: map[string]bool{}, WrapsIf: map[string]ast.Expr{}, File: file, Line: line}
 			c.Externs[rest] = cur
 			c.Scan = append(c.Scan, "extern "+rest)
 		case "func":
-			cur = &FuncSpec{Key: rest, Loops: map[int]*LoopSpec{}, AtCall: map[string]*CallSpec{}, Wraps: map[string]bool{}, File: file, Line: line}
+			cur = &FuncSpec{Key: rest, Loops: map[int]*LoopSpec{}, AtCall: map[string]*CallSpec{}, Wraps: map[string]bool{}, WrapsIf: map[string]ast.Expr{}, File: file, Line: line}
 			if _, dup := c.Funcs[rest]; dup {
 				return fmt.Errorf("%s:%d: duplicate contract for %s", file, line, rest)
 			}
 			c.Funcs[rest] = cur
 		case "bundle":
-			cur = &FuncSpec{Key: "bundle " + rest, Loops: map[int]*LoopSpec{}, AtCall: map[string]*CallSpec{}, Wraps: map[string]bool{}, File: file, Line: line}
+			cur = &FuncSpec{Key: "bundle " + rest, Loops: map[int]*LoopSpec{}, AtCall: map[string]*CallSpec{}, Wraps: map[string]bool{}, WrapsIf: map[string]ast.Expr{}, File: file, Line: line}
 			c.Bundles[rest] = cur
 		case "use":
 			b := c.Bundles[rest]
@@ -428,8 +429,17 @@ func ParseContracts(file string, c *Contracts) error {
 			cur.Trusted = rest
 			c.Scan = append(c.Scan, "trusted "+cur.Key+": "+rest)
 		case "wraps":
-			cur.Wraps[rest] = true
-			c.Scan = append(c.Scan, "wraps "+cur.Key+": "+rest)
+			if txt, cond, ok := strings.Cut(rest, " unless "); ok {
+				e, err := parseSpecExpr(strings.TrimSpace(cond), file, line)
+				if err != nil {
+					return err
+				}
+				cur.WrapsIf[strings.TrimSpace(txt)] = e
+				c.Scan = append(c.Scan, "overflow of "+strings.TrimSpace(txt)+" in "+cur.Key+" checked only under: "+strings.TrimSpace(cond))
+			} else {
+				cur.Wraps[rest] = true
+				c.Scan = append(c.Scan, "wraps "+cur.Key+": "+rest)
+			}
 		case "nopanic":
 			tags, _ := parseTags(rest)
 			cur.NoPanic = tags
